@@ -413,16 +413,13 @@ def _nan_only_diff(per_item, raw: bytes) -> bool:
 
 
 # ==== Array(code, values) ==============================================================================
-def array_typecode(kind_code: str):
-    """The array.array typecode with the same kind and the same *width* as a struct code (standard size)."""
+def array_typecodes(kind_code: str):
+    """Every array.array typecode with the same kind and the same *width* as a struct code (standard size)."""
     want = SIZE[kind_code]
     if kind_code in FLOAT_CODES:
-        return {4: 'f', 8: 'd'}.get(want) if kind_code != 'e' else None
+        return [tc for tc in 'fd' if array.array(tc).itemsize == want and kind_code != 'e']
     cands = 'bhilq' if kind_code.islower() else 'BHILQ'
-    for tc in cands:
-        if array.array(tc).itemsize == want:
-            return tc
-    return None
+    return [tc for tc in cands if array.array(tc).itemsize == want]
 
 
 def judge_array(ctx, c):
@@ -496,22 +493,30 @@ def judge_array(ctx, c):
         ctx.ok(('array-frombytes',) + key_tail, n > 0)
 
     # the corresponding array.array (native prefixes only: array.array is always native-endian)
-    tc = array_typecode(cd)
-    if p in '=@' and tc is not None:
+    for tc in (array_typecodes(cd) if p in '=@' else ()):
         arr = array.array(tc, vals)
-        if arr.tobytes() == exp:       # struct and array agree (they do unless NaN payloads are quieted)
-            if raw == exp:
-                ctx.ok(('array-vs-array.array', dt, tc), n > 0)
-            g = call(lambda: (a.equals(arr), bitstring.Array(dt, arr).tobytes()))
-            ctx.op('Array.equals', outcome(g))
-            if g[0] == 'exc':
-                ctx.mismatch(f'C18|array-equals|typecode-{tc}|unexpected-exc:{type(g[1]).__name__}', short(c), repr(g[1])[:200])
-            elif g[1][1] != exp:
-                ctx.mismatch(f'C18|array-extend|typecode-{tc}|accepted-wrong-values', short(c), f'{dt}: {g[1][1].hex()} vs {exp.hex()}')
-            elif not has_nan and g[1][0] is not True:
-                ctx.mismatch(f'C18|array-equals|typecode-{tc}|false-for-equal', short(c), f'{dt} equals array({tc!r}) -> {g[1][0]!r}')
-            else:
-                ctx.ok(('array-equals', dt, tc), n > 0)
+        tcl = tc_class(tc, arr.itemsize)
+        if arr.tobytes() != exp:       # struct and array disagree (only conceivable for quieted NaN payloads)
+            continue
+        if raw == exp:
+            ctx.ok(('array-vs-array.array', dt, tc), n > 0)
+        g = call(lambda: a.equals(arr))
+        ctx.op('Array.equals', outcome(g))
+        if g[0] == 'exc':
+            ctx.mismatch(f'C18|array-equals|{tcl}|unexpected-exc:{type(g[1]).__name__}', short(c), repr(g[1])[:200])
+        elif not has_nan and g[1] is not True:
+            ctx.mismatch(f'C18|array-equals|{tcl}|false-for-equal', short(c), f'{dt} equals array({tc!r}) -> {g[1]!r}')
+        else:
+            ctx.ok(('array-equals', dt, tc), n > 0)
+        g = call(lambda: bitstring.Array(dt, arr).tobytes())
+        ctx.op('Array(array)', outcome(g))
+        if g[0] == 'exc':
+            ctx.mismatch(f'C18|array-extend|{tcl}|rejected-matching-width', short(c),
+                         f'Array({dt!r}) rejects array.array({tc!r}) (itemsize {arr.itemsize}): {g[1]!r}'[:300])
+        elif g[1] != exp:
+            ctx.mismatch(f'C18|array-extend|{tcl}|accepted-wrong-values', short(c), f'{dt}: {g[1].hex()} vs {exp.hex()}')
+        else:
+            ctx.ok(('array-from-array.array', dt, tc), n > 0)
 
     # byteswap: converts to the other byte order, twice is the identity
     opp = '<' if eff_order(p) == '>' else '>'
@@ -566,10 +571,10 @@ def _dtype_pool():
             kind = 'float' if cd in FLOAT_CODES else ('int' if cd.islower() else 'uint')
             order = 'none' if SIZE[cd] == 1 else {'>': 'be', '<': 'le', '=': 'ne', '@': 'ne'}[p]
             pool.append((p + cd, kind, 8 * SIZE[cd], order))
-    for nm, w in (('hex2', 8), ('hex4', 16), ('hex8', 32), ('hex16', 64), ('bin8', 8), ('bin16', 16), ('bin32', 32),
+    for nm, w in (('hex8', 8), ('hex16', 16), ('hex32', 32), ('hex64', 64), ('bin8', 8), ('bin16', 16), ('bin32', 32),
                   ('bytes1', 8), ('bytes2', 16), ('bytes4', 32), ('bytes8', 64), ('bits8', 8), ('bits32', 32),
                   ('bool', 1), ('bfloat', 16), ('p4binary8', 8), ('p3binary8', 8), ('e4m3mxfp8', 8),
-                  ('e5m2mxfp8', 8), ('mxint8', 8), ('oct8', 24)):
+                  ('e5m2mxfp8', 8), ('mxint8', 8), ('oct24', 24)):
         pool.append((nm, 'other:' + nm.rstrip('0123456789'), w, 'be'))
     return pool
 
@@ -808,7 +813,7 @@ def judge_endian(ctx, c):
         check('be-read', 'bfloatbe', call(lambda: rd(s, 'bfloatbe')), be_def, 'vs-struct')
         check('be-read', 'bfloat', call(lambda: rd(s, 'bfloat')), be_def, 'plain-equals-be')
         check('ne-read', 'bfloatne', call(lambda: rd(s, 'bfloatne')), ne_def, 'vs-sys.byteorder')
-        if not math.isnan(be_def):
+        if not math.isnan(le_def):
             # creating from an exactly representable value: le bytes are the reversed be bytes
             g = call(lambda: (cls(bfloatle=le_def).tobytes(), cls(bfloatbe=le_def).tobytes(), cls(bfloatne=le_def).tobytes()))
             ctx.op('le-create', outcome(g))
@@ -944,11 +949,12 @@ def judge_byteswap(ctx, c):
 
 
 # ==== Array.byteswap for any dtype ==========================================================================
+# (byte-multiplier dtypes such as 'bytes3' are left to C14: Array confuses their unit with bits)
 ARR_BS_DTYPES = [('uint8', 8), ('int8', 8), ('uint16', 16), ('uint24', 24), ('int40', 40), ('uintle16', 16),
-                 ('intle48', 48), ('uintbe32', 32), ('intne64', 64), ('uintne24', 24), ('hex4', 16), ('hex2', 8),
-                 ('bytes3', 24), ('bin16', 16), ('bits24', 24), ('float16', 16), ('float32', 32), ('floatle64', 64),
+                 ('intle48', 48), ('uintbe32', 32), ('intne64', 64), ('uintne24', 24), ('hex16', 16), ('hex8', 8),
+                 ('bin16', 16), ('bits24', 24), ('float16', 16), ('float32', 32), ('floatle64', 64),
                  ('bfloat', 16), ('e4m3mxfp', 8), ('uint128', 128), ('>q', 64), ('<H', 16), ('=f', 32), ('@b', 8),
-                 ('uint12', 12), ('bool', 1), ('bin7', 7), ('int5', 5), ('uint17', 17), ('hex3', 12), ('oct3', 9)]
+                 ('uint12', 12), ('bool', 1), ('bin7', 7), ('int5', 5), ('uint17', 17), ('hex12', 12), ('oct9', 9)]
 
 
 def judge_arr_bswap(ctx, c):
@@ -1243,7 +1249,7 @@ def run(ctx):
     if ctx.shard == 0:
         directed(ctx)
     enumerated(ctx)
-    n = ctx.scale(26000, 1500000)
+    n = ctx.scale(110000, 3600000)
     mix = [(gen_pack, 0.38), (gen_array, 0.17), (gen_endian, 0.17), (gen_byteswap, 0.17), (gen_arr_bswap, 0.05)]
     rng = ctx.rng
     for i in range(n):
